@@ -17,7 +17,7 @@ from .. import cg, core, parser_rules as pr, vt
 
 PRODUCER = re.compile(r'RustType as std::convert::TryFrom<&syn::Type>>::try_from$|RustType as std::str::FromStr>::from_str$')
 WRITE_API = re.compile(r'std::fs::write$|fs::File::create$|File::create_new$|OpenOptions::open$|fs::create_dir_all$|fs::create_dir$|fs::remove_file$|fs::remove_dir|fs::rename$|fs::copy$|File::set_len$|fs::hard_link$|OpenOptions::(append|truncate|create|create_new|write)$')
-ALLOWED_WRITERS = {'writer::check_write_file', 'language::swift::Swift::write_codable_file', 'config::store_config'}
+ALLOWED_WRITERS = {'writer::check_write_file', 'language::swift::Swift::write_codable_file', 'config::store_config'}   # the first one is replaced at run time by the writer found by role (wiring.output_writer)
 
 
 def nows(x):
@@ -384,8 +384,12 @@ def w(ctx, rep, prog):
     rep.floor('W1', 'functions using file-writing APIs', len(writers), 3)
     # a private helper of an allowed writer is part of that writer: every call of it (anywhere in the program) comes from the
     # region of an allowed writer — computed as a fixpoint, so helpers of helpers count too
+    from .. import wiring
+    ow = wiring.output_writer(ctx, prog)
+    allowed = {a for a in ALLOWED_WRITERS if not a.endswith('check_write_file')} | {ow['mir']}
+
     def allowed_name(fn):
-        return any(fn == a or fn.endswith(a) for a in ALLOWED_WRITERS)
+        return any(fn == a or fn.endswith(a) for a in allowed)
     derived = set()
     changed = True
     while changed:
@@ -400,7 +404,7 @@ def w(ctx, rep, prog):
                 changed = True
     for fn, cs in sorted(writers.items()):
         ok = allowed_name(fn) or fn in derived
-        rep.check(ok, 'W1', f'writer:{fn}', f"{sorted({c['callee'].split('::')[-1] for c in cs})}", f"{fn} creates/writes files ({sorted({c['callee'] for c in cs})[:2]}): only check_write_file, Swift::write_codable_file and store_config may touch the file system — output written elsewhere bypasses the error gate and the compare-before-write discipline", {'file': cs[0]['file'], 'line': cs[0]['line']})
+        rep.check(ok, 'W1', f'writer:{fn}', f"{sorted({c['callee'].split('::')[-1] for c in cs})}", f"{fn} creates/writes files ({sorted({c['callee'] for c in cs})[:2]}): only the compare-before-write writer ({ow['name']}), Swift::write_codable_file and store_config may touch the file system — output written elsewhere bypasses the error gate and the compare-before-write discipline", {'file': cs[0]['file'], 'line': cs[0]['line']})
     # W2 — the error gate.  A *gate* is any function of the CLI crate that reads `ParsedData.errors` (rustc's field
     # resolution, not a name) and can return Err.  Required, inter-procedurally from generate_types:
     #  (a) GATED: every call that can reach a file write is dominated by a gate call whose Err is propagated, or is
